@@ -2726,9 +2726,13 @@ class TypeChecker(NodeVisitor[None], TypeCheckerSharedApi, SplittingVisitor):
                             )
                         ):
                             # If there's any decorator, we can no longer map arguments 1:1 reliably.
-                            arg_node = node.arguments[i + override.bound()]
-                            if arg_node.line != -1:
-                                context = arg_node
+                            # For a redefinition of the method, "override" is the type of the
+                            # first definition, which may have more arguments than this node.
+                            arg_index = i + override.bound()
+                            if arg_index < len(node.arguments):
+                                arg_node = node.arguments[arg_index]
+                                if arg_node.line != -1:
+                                    context = arg_node
                         self.msg.argument_incompatible_with_supertype(
                             i + 1,
                             name,
